@@ -35,7 +35,9 @@ func snapToGridFloat64(f float64, dp int) float64 {
 	case dp > 0:
 		scale := math.Pow10(dp)
 		scaled := f * scale
-		if scaled > math.MaxFloat64 {
+		if math.IsInf(scale, 0) || math.IsInf(scaled, 0) {
+			// The scale factor or the scaled value overflowed. The grid is
+			// finer than the resolution of f, so f is already on the grid.
 			return f
 		}
 		return math.Round(scaled) / scale
